@@ -86,12 +86,12 @@ def gen(rng, tier, n):
         if r < 0.2:
             c = gs.Ctx(rng, rng.choice(["2020", "7"]), depth=2, refs=False)
             c.wild_ints = True
-            doc = gs.gen_document(c)
+            doc = gs.gen_document(c, rng.choice(gs.D7_URIS) if c.draft == "7" and rng.random() < 0.8 else None)
             text = to_text(doc)
             ops.append({"op": "unmarshal-bytes", "args": {"text": mutate_bytes(rng, text) if rng.random() < 0.8 else text}, "meta": {}})
         elif r < 0.35:
             c = gs.Ctx(rng, rng.choice(["2020", "7"]), depth=1, refs=False)
-            doc = gs.gen_document(c)
+            doc = gs.gen_document(c, rng.choice(gs.D7_URIS) if c.draft == "7" and rng.random() < 0.8 else None)
             if not isinstance(doc, Obj):
                 doc = Obj()
             pos = []
